@@ -1147,6 +1147,7 @@ fn diff_instance(
         warp_id,
         before,
         after,
+        &before_edges,
         &after_edges,
         skip_attachment_ops,
     );
@@ -1272,14 +1273,23 @@ fn diff_edge_attachments(
     warp_id: WarpId,
     before: &GraphStore,
     after: &GraphStore,
+    before_edges: &std::collections::BTreeMap<ContentHash, EdgeRecord>,
     after_edges: &std::collections::BTreeMap<ContentHash, EdgeRecord>,
     skip_attachment_ops: &std::collections::BTreeSet<AttachmentKey>,
 ) {
-    for id in after_edges.keys() {
+    for (id, rec_after) in after_edges {
         let edge_id = EdgeId(*id);
         let before_val = before.edge_attachment(&edge_id);
         let after_val = after.edge_attachment(&edge_id);
-        if before_val == after_val {
+        // An edge that keeps its id but moves to another source bucket is replayed as
+        // `DeleteEdge` + `UpsertEdge` (see `diff_edges`), and `DeleteEdge` clears the
+        // attachment slot. Whatever value the edge carries afterwards must therefore be
+        // written again, even when it is unchanged or was already set by an `OpenPortal`.
+        let recreated_with_value = after_val.is_some()
+            && before_edges
+                .get(id)
+                .is_some_and(|rec_before| rec_before.from != rec_after.from);
+        if before_val == after_val && !recreated_with_value {
             continue;
         }
 
@@ -1287,7 +1297,7 @@ fn diff_edge_attachments(
             warp_id,
             local_id: edge_id,
         });
-        if skip_attachment_ops.contains(&key) {
+        if skip_attachment_ops.contains(&key) && !recreated_with_value {
             continue;
         }
         ops.push(WarpOp::SetAttachment {
